@@ -572,7 +572,12 @@ def _chop(frame: Subframe, time: sc.Variable, close_to_open: bool) -> Subframe |
         if inside_i != inside_j:
             # Intersection
             t = (time - frame.time[i]) / (frame.time[j] - frame.time[i])
-            v = (1 - t) * frame.wavelength[i] + t * frame.wavelength[j]
+            # This form is exact if both vertices have the same wavelength, and the
+            # result is kept between the two vertices. Both are needed to keep
+            # subframes regular in the presence of rounding errors.
+            w_i, w_j = frame.wavelength[i], frame.wavelength[j]
+            v = w_i + t * (w_j - w_i)
+            v = min(max(v, min(w_i, w_j)), max(w_i, w_j))
             output.append((time, v))
     if not output:
         return None
